@@ -16,17 +16,22 @@ V2_POINTS = ["pkg/lifecycle-poc/funnel/destination.go"]
 PREEMPT = {"name": "flow-preempt", "pkg": "pkg/verifflow", "harness": "flow", "run": "^TestVerifFlowPreempt$", "instrument": True,
            "shards": 16, "shards_thorough": 16, "points": V1_POINTS + V2_POINTS}
 
+def preempt(points):
+    d = dict(PREEMPT)
+    d["points"] = points
+    return d
+
 CHECKS = {
-    "C01": {"parts": [FLOW]},
-    "C02": {"parts": [FLOW]},
+    "C01": {"parts": [FLOW, preempt(V1_POINTS + ["pkg/lifecycle/stream/fanout.go"])]},
+    "C02": {"parts": [FLOW, preempt(["pkg/connector/source.go", "pkg/connector/persister.go"])]},
     "C03": {"parts": [FLOW]},
-    "C04": {"parts": [FLOW]},
+    "C04": {"parts": [FLOW, preempt(V1_POINTS + ["pkg/lifecycle/stream/fanout.go"])]},
     "C06": {"parts": [FLOW, PREEMPT]},
     "C07": {"parts": [FLOW]},
     "C12": {"parts": [FLOW]},
     "C10": {"parts": [FLOW]},
-    "C11": {"parts": [FLOW]},
-    "C13": {"parts": [FLOW]},
+    "C11": {"parts": [FLOW, preempt(["pkg/lifecycle/service.go", "pkg/lifecycle-poc/service.go"])]},
+    "C13": {"parts": [FLOW, preempt(["pkg/lifecycle/stream/processor.go"])]},
     "C16": {"parts": [FLOW]},
     "C09": {"rule": "conditional processor: inputs<=4 x all match patterns x output length 0..kept+1 x kind vectors x slice capacity; sandbox: plugin behaviours x context states; reply shapes of processors, destinations and sources explored as answers of the scripted plugins on the real full stack",
             "parts": [{"name": "condmerge", "pkg": "pkg/verifc09", "harness": "c09cond", "run": "^TestVerifC09Cond$"},
